@@ -358,6 +358,16 @@ def persisted (d : Durable) (f : Filled) (k : Nat) : Durable :=
     states := if k ≥ 3 then d.states.commit f.sw else d.states,
     fileLen := f.fileLen }
 
+/-- `GetBlockRootWithPreBlockHashes(startHeight, preBlockHashes)` (uint32 arithmetic as in the code): the empty hash
+when the caller is behind the ledger, otherwise the accumulator root with the not yet committed hashes appended;
+`none` where the slice expression of the Go code is out of range (panic) -/
+def blockRootWithPre (p : Params) (s : State) (start : Nat) (pre : List Hash) : Option Hash :=
+  let last := (start + pre.length + 2 ^ 32 - 1) % 2 ^ 32
+  if s.mem.currHeight > last then some zeroHash
+  else
+    let idx := (s.mem.currHeight + 1 + 2 ^ 32 - start % 2 ^ 32) % 2 ^ 32
+    if idx > pre.length then none else some (treeRoot p (s.mem.blockTree ++ pre.drop idx))
+
 /-- the guards of `submitBlock` before anything is written -/
 def submitGuards (p : Params) (s : State) (b : Block) : Except Err Unit :=
   if b.header.height ≠ 0 ∧ b.header.prev ≠ s.mem.currHash then .error .notip
